@@ -28,12 +28,12 @@ def rows():
     """(name, objs, other activities, actor script, judged) ; judged = list of (pc, kind)"""
     T = []
 
-    def row(name, script, judged, objs=None, others=None):
-        T.append({'name': name, 'objs': objs or {}, 'others': others or [], 'script': script, 'judged': judged})
+    def row(name, script, judged, objs=None, others=None, start=0):
+        T.append({'name': name, 'objs': objs or {}, 'others': others or [], 'script': script, 'judged': judged, 'start': start})
 
-    def ops(name, setup, judged_ops, objs=None, others=None):
+    def ops(name, setup, judged_ops, objs=None, others=None, start=0):
         script = setup + judged_ops
-        row(name, script, [((len(setup) + i,), 'op') for i in range(len(judged_ops))], objs, others)
+        row(name, script, [((len(setup) + i,), 'op') for i in range(len(judged_ops))], objs, others, start)
 
     F2 = {'A': 'Flag', 'B': 'Flag'}
     ops('instant', [], [['INSTANT'], ['D', 0]])
@@ -108,6 +108,30 @@ def rows():
             [((0,), 'scope-exit')])
     row('until-exit', [['UNTIL', 'a', ['ETERNITY'], [['INSTANT']]], ['UNTIL', 'b', ['DELAY', 5], []]],
         [((0,), 'scope-exit'), ((1,), 'scope-exit')])
+    # leaving an until block whose notification has fired although the body never met a break point that could take the interrupt
+    row('until-exit-fired', [['SET', 'A', True], ['UNTIL', 'a', ['F', 'A'], []], ['UNTIL', 'b', ['GE', 0], []],
+                             ['UNTIL', 'c', ['OR', ['F', 'A'], ['F', 'B']], []], ['UNTIL', 'd', ['NF', 'B'], [['PROBE', 'now']]]],
+        [((1,), 'scope-exit'), ((2,), 'scope-exit'), ((3,), 'scope-exit'), ((4,), 'scope-exit')], F2)
+    row('until-exit-fired-late', [['UNTIL', 'a', ['F', 'A'], [['INSTANT']]]], [((0,), 'scope-exit')], F2,
+        [['s', [['SET', 'A', True]]]])
+    # an operation right after an until block that was interrupted inside a postponing operation in this very time step
+    # (the wake-up of that interrupted postponement is still in the queue, revoked)
+    OBJ = {'A': 'Flag', 'B': 'Flag', 'q': 'Queue', 'X': ['Tracked', 0]}
+    for i, (pre, op) in enumerate([([], ['INSTANT']), ([], ['D', 0]), ([], ['GE', 0]), ([], ['PUT', 'q', 1]), ([['PUT', 'q', 1]], ['GET', 'q']),
+                                   ([], ['TSET', 'X', 1]), ([], ['SET', 'B', True]), ([['SET', 'B', True]], ['WAIT', ['F', 'B']]),
+                                   ([], ['SCOPE', 'z', []])]):
+        for blk in ([['UNTIL', 'a', ['F', 'A'], [['SET', 'A', True]]]], [['UNTIL', 'a', ['T', 'X', '>=', 5], [['TSET', 'X', 5]]]],
+                    [['UNTIL', 'a', ['F', 'A'], [['DO', 'k', [['SET', 'A', True]]], ['INSTANT'], ['INSTANT']]]]):
+            setup = pre + [['TRY', blk]]
+            row('after-interrupted-postponement-%d' % i, setup + [op],
+                [((len(setup),), 'scope-exit' if op[0] == 'SCOPE' else 'op')], OBJ)
+    # clock values so large that a positive period / duration is absorbed by the addition (now + d == now)
+    BIG = 2.0 ** 60
+    row('ticker-steps-big-clock', [['DELAYLOOP', 1, 3, [[], [], []]], ['INTERVAL', 1, 3, [[], [], []]], ['DELAYLOOP', 0, 2, [[], []]]],
+        [((0,), 'ticks'), ((1,), 'ticks'), ((2,), 'ticks')], None, None, BIG)
+    ops('pipe-big-clock', [], [['XFER', 'p', 1], ['XFER', 'p', 2, 1], ['XFER', 'p', 0]], {'p': ['Pipe', 2]}, None, BIG)
+    ops('unbounded-big-clock', [], [['XFER', 'p', 2, 1], ['XFER', 'p', 2]], {'p': ['UnboundedPipe']}, None, BIG)
+    ops('waits-big-clock', [], [['D', 1], ['INSTANT'], ['GE', 0]], None, None, BIG)
     return T
 
 
@@ -117,7 +141,7 @@ def program(row, nspin, actor_first):
     spinners = [['DO', 'spin%d' % (i + 1), [['SPINLOG', 40], ['EQ', 1], ['SPINLOG', 40]], {'volatile': True}] for i in range(nspin)]
     others = [['DO', n, s, {'volatile': True}] for n, s in row['others']]
     kids = ([actor] + others + spinners) if actor_first else (others + spinners + [actor])
-    return {'objs': row['objs'], '_nops': 120, '_row': row['name'], '_judged': row['judged'],
+    return {'objs': row['objs'], '_nops': 120, '_row': row['name'], '_judged': row['judged'], 'start': row.get('start', 0),
             'roots': [['root', [['SCOPE', 'm', kids]]]]}
 
 
@@ -160,6 +184,8 @@ def spans(ctx, judged):
         elif kind == 'scope-exit':
             s = next((i for i, r in recs if r[0] == 'scope-body-end'), None)
             e = next((i for i, r in recs if r[0] == 'scope-left'), None)
+            if any(r[0] == 'scope-body-exc' for i, r in recs):
+                continue        # the body was abandoned at a suspension point: not a regular exit (only those are judged)
             out.append(('leaving the block at %r' % (pc,), s, e))
         elif kind == 'ticks':
             marks = [i for i, r in recs if r[0] in ('iter-begin', 'tick')]
@@ -184,6 +210,10 @@ def judge(ctx, program):
             continue            # the clock advanced
         if ctx.log_act[s] == ctx.log_act[e]:
             msgs.append('row %s: %s completed within the activation that started it: nobody else could run' % (program['_row'], what))
+            continue
+        # an exit that is completed by the until-interrupt of its own block (queued by the notification before the exit began,
+        # i.e. ahead of the competitors' wake-ups) is an interrupted exit: it yielded, and FIFO order decides who runs next
+        if ctx.trace[ctx.log_act[e] - 1][3] == 'CancelScope':
             continue
         # every competitor that is still alive in this time step got a turn in between
         for sp in {r[1] for r in log if r[1].startswith('spin')}:
